@@ -704,8 +704,13 @@ class _State(object):
 
     def value_if(self, s, c, env, rest):
         env_t, env_e = dict(env), dict(env)
-        r_t = self.block(s.body, env_t)
-        r_e = self.block(s.orelse, env_e)
+        # an `if` nested in either branch (an elif chain) whose own branches do not all return continues with what follows this one
+        self.cont_stack.append(rest)
+        try:
+            r_t = self.block(s.body, env_t)
+            r_e = self.block(s.orelse, env_e)
+        finally:
+            self.cont_stack.pop()
         if r_t is not None and r_e is not None:
             return (self.merge_results(c, r_t, r_e, s),)
         if r_t is not None or r_e is not None:
@@ -719,7 +724,7 @@ class _State(object):
             if r_rest is None:
                 raise Untranslatable('branch returns but continuation does not', s)
             return (self.merge_results(c, r_t, r_rest, s) if r_t is not None else self.merge_results(c, r_rest, r_e, s),)
-        for k in set(list(env_t.keys()) + list(env_e.keys())):
+        for k in sorted(set(list(env_t.keys()) + list(env_e.keys()))):     # sorted: the generated text does not depend on the hash seed
             a, b = env_t.get(k), env_e.get(k)
             if isinstance(a, A) or isinstance(b, A):
                 if isinstance(a, A) and isinstance(b, A) and a.shape == b.shape:
@@ -1459,6 +1464,9 @@ class _State(object):
                 k = self.expr(args[1], env)
                 if k[0] == 'num' and k[1].denominator == 1 and 0 <= k[1] <= 8:
                     return ('pow', self.expr(args[0], env), int(k[1]))
+                if not isinstance(k, A):
+                    # real exponent: Rpower (defined for a positive base; the theorems using it say so)
+                    return ('call', 'rpow', [self.expr(args[0], env), k])
             if f == 'sum' and len(args) >= 1 and self.list_params:
                 body = self.expr(args[0], env)
                 ls = [v[:-4] for v in ir.free_vars(body, []) if v.endswith('_elt') and v[:-4] in self.list_params]
@@ -1528,10 +1536,11 @@ class _State(object):
             return self.expr(args[0], env)
         if d in ('min', 'max') and len(args) == 2 and not n.keywords:
             return ('call', d, [self.expr(args[0], env), self.expr(args[1], env)])
-        if d == 'gaussian_cdf' and len(args) == 3:
+        # (a definition of the same name in the translated file that the spec asks to inline takes precedence over the library mapping)
+        if d == 'gaussian_cdf' and len(args) == 3 and d not in self.inline:
             x, mu, s = [self.expr(a, env) for a in args]
             return ('call', 'Phi', [self.fold_affine(x, mu, s)])
-        if d == 'gaussian_pdf' and len(args) == 3:
+        if d == 'gaussian_pdf' and len(args) == 3 and d not in self.inline:
             x, mu, s = [self.expr(a, env) for a in args]
             z = self.fold_affine(x, mu, s)
             return ('bin', '/', ('call', 'exp', [('neg', ('bin', '/', ('bin', '*', z, z), ir.num(2)))]),
